@@ -204,6 +204,86 @@ def _root_cause(text):
     return ''
 
 
+# ----------------------------------------------------------------------
+# stored cardinalities must stay justified when the schema evolves
+
+DDL_SETUPS = [
+    # (setup DDL, holder type, computed pointer, [commands that remove the justification])
+    ("""create type Team { create required property region -> str; create required property code -> str;
+                           create constraint exclusive on ((.region, .code)) };
+        create type Player { create required property region -> str; create required property code -> str;
+            create link team := (select Team filter .region = Player.region and .code = Player.code) };""",
+     'Player', 'team',
+     ['alter type Team drop constraint exclusive on ((.region, .code))']),
+    ("""create type U1 { create required property name -> str { create constraint exclusive } };
+        create type H1 { create link u := (select U1 filter .name = 'root') };""",
+     'H1', 'u',
+     ['alter type U1 alter property name drop constraint exclusive',
+      'alter type U1 alter property name set multi']),
+    ("""create abstract type B2 { create required property name -> str; create constraint exclusive on (.name) };
+        create type U2 extending B2;
+        create type H2 { create link u := (select U2 filter .name = 'root');
+                         create property n := (select U2 filter .name = 'root').name };""",
+     'H2', 'u',
+     ['alter type B2 drop constraint exclusive on (.name)', 'alter type U2 drop extending B2']),
+    ("""create type U3 { create required property name -> str { create constraint exclusive };
+                         create multi link items -> U3 { create constraint exclusive } };
+        create type H3 { create link owner := (select U3 filter .name = 'x');
+                         create link holder := (select detached U3 filter .items = H3.owner) };""",
+     'H3', 'holder',
+     ['alter type U3 alter link items drop constraint exclusive',
+      'alter type U3 alter property name drop constraint exclusive']),
+    ("""create type U4 { create required property a -> str; create required property b -> int64;
+                         create constraint exclusive on ((.a, .b)); create constraint exclusive on (.a) };
+        create type H4 { create link u := (select U4 filter .a = 'k' and .b = 1) };""",
+     'H4', 'u',
+     ['alter type U4 drop constraint exclusive on (.a)',
+      'alter type U4 drop constraint exclusive on ((.a, .b))']),
+]
+
+
+def run_ddl_case(case):
+    """-> violations.  After every accepted command the stored cardinality of each computed
+    pointer of the holder must equal what inference yields for its expression now."""
+    S = preload()
+    from edb.schema import objtypes as s_objtypes
+    setup, holder, _ptr, cmds = DDL_SETUPS[case['setup']]
+    try:
+        schema = SE.run_ddl(SE.setup()['std'], 'create module default; ' + setup)
+    except SE.Rejected as e:
+        return [], dict(status='setup-rejected', why=str(e)[:60])
+    viol = []
+    accepted = []
+    for ci in case['order']:
+        cmd = cmds[ci % len(cmds)]
+        try:
+            schema = SE.run_ddl(schema, cmd)
+        except SE.Rejected:
+            continue
+        accepted.append(cmd)
+        obj = schema.get(f'default::{holder}', type=s_objtypes.ObjectType)
+        for pn, ptr in obj.get_pointers(schema).items(schema):
+            e = ptr.get_expr(schema)
+            if e is None:
+                continue
+            stored_single = ptr.get_cardinality(schema) is S['qltypes'].SchemaCardinality.One
+            try:
+                ir = S['qlcompiler'].compile_ast_to_ir(
+                    S['qlparser'].parse_query(f'select {holder} {{ zz_probe := ({e.text}) }}'), schema,
+                    options=S['qlcompiler'].CompilerOptions(modaliases={None: 'default'}))
+                z = ir.stype.getptr(ir.schema, S['sn'].UnqualName('zz_probe'))
+                now_single = z.get_cardinality(ir.schema) is S['qltypes'].SchemaCardinality.One
+            except S['errors'].EdgeDBError:
+                continue
+            if stored_single and not now_single:
+                viol.append((f'stale-single:after-{cmd.split()[2] if len(cmd.split()) > 2 else "ddl"}-'
+                             f'{"drop-constraint" if "drop constraint" in cmd else "alter"}',
+                             f'after `{cmd}` was accepted, {holder}.{pn} is still stored as single, but its '
+                             f'expression {e.text} is no longer a singleton under the remaining constraints '
+                             f'(history: {accepted})'))
+    return viol, dict(status='ok', accepted=len(accepted))
+
+
 def _strategy():
     from hypothesis import strategies as st
     S = preload()
@@ -245,12 +325,29 @@ def _run(rec, c):
 
 def shard(rec, idx, nshards, seed, tier):
     preload()
+    # schema-evolution stage (small and fixed: every setup x every order of its commands)
+    import itertools
+    k = 0
+    for si, (_s, _h, _p, cmds) in enumerate(DDL_SETUPS):
+        for order in itertools.permutations(range(len(cmds))):
+            k += 1
+            if k % nshards != idx:
+                continue
+            case = dict(ddl=True, setup=si, order=list(order))
+            viol, info = run_ddl_case(case)
+            rec.evaluations += 1
+            rec.classes['ddl-stage:' + info['status']] += 1
+            for sig, detail in viol[:1]:
+                rec.violation(sig, case, detail)
     n = 400 if tier == 'quick' else 9000
     core.run_given(_strategy(), lambda c: _run(rec, c), seed=seed * 1000 + idx, max_examples=n)
 
 
 def replay(case):
     preload()
+    if case.get('ddl'):
+        viol, _ = run_ddl_case(case)
+        return '; '.join(f'{s}: {d}' for s, d in viol[:2]) or None
     viol, _ = run_case(case)
     return '; '.join(f'{s}: {d}' for s, d in viol[:2]) or None
 
